@@ -47,7 +47,8 @@ const (
 	DefSessionOtherContainer
 	DefSessionOtherObject // V1 token bound to another object (GET/HEAD/RANGE)
 	DefSessionWrongVerb
-	DefSessionTampered // token body changed after it was signed
+	DefSessionTampered  // token body changed after it was signed
+	DefSessionForgedSig // byte-identical body of a genuine token, signature replaced (other key / bit flip / empty / signature of other data)
 	DefSessionBothVersions
 	// bearer tokens
 	DefBearerExpired
@@ -55,6 +56,7 @@ const (
 	DefBearerOtherContainer // eACL table bound to another container
 	DefBearerOtherUser      // issued for another user
 	DefBearerTampered
+	DefBearerForgedSig // byte-identical body of a genuine token, signature replaced
 	// access rules
 	DefBasicACL         // Others on the private container
 	DefSticky           // PUT into the sticky container with a foreign owner in the object
@@ -69,8 +71,8 @@ const (
 var defectNames = [...]string{"none", "sig/no-verify-header", "sig/trusted-peer-ttl2", "sig/body-sig-flip", "sig/body-changed",
 	"sig/meta-sig-flip", "sig/meta-changed", "sig/origin-sig-flip", "sig/key-swap", "sig/no-body-sig", "sig/inner-layer-broken", "sig/forged-owner-key",
 	"session/expired", "session/not-yet-valid", "session/other-container", "session/other-object", "session/wrong-verb",
-	"session/tampered", "session/both-versions",
-	"bearer/expired", "bearer/not-owner", "bearer/other-container", "bearer/other-user", "bearer/tampered",
+	"session/tampered", "session/forged-signature", "session/both-versions",
+	"bearer/expired", "bearer/not-owner", "bearer/other-container", "bearer/other-user", "bearer/tampered", "bearer/forged-signature",
 	"acl/basic", "acl/sticky", "acl/eacl-request-xheader", "acl/eacl-request-object-attr", "acl/eacl-bearer-deny", "acl/eacl-header-time", "acl/eacl-header-time-remote"}
 
 func (d Defect) String() string { return defectNames[d] }
@@ -78,7 +80,7 @@ func (d Defect) String() string { return defectNames[d] }
 // IsSignature, IsSession, IsBearer, IsACL classify the defect.
 func (d Defect) IsSignature() bool { return d >= DefNoVerifyHeader && d <= DefForgedKey }
 func (d Defect) IsSession() bool   { return d >= DefSessionExpired && d <= DefSessionBothVersions }
-func (d Defect) IsBearer() bool    { return d >= DefBearerExpired && d <= DefBearerTampered }
+func (d Defect) IsBearer() bool    { return d >= DefBearerExpired && d <= DefBearerForgedSig }
 func (d Defect) IsACL() bool       { return d >= DefBasicACL && d <= DefEACLHeaderRemote }
 
 // Versions is the table of API versions put into request meta headers
@@ -149,16 +151,17 @@ type Spec struct {
 
 	Defect    Defect
 	DefectArg int // free parameter of the defect (byte to flip, field to change, PUT message index)
+	ForgeKind int // Def*ForgedSig: 0 re-signed by another key, 1 bit flip, 2 empty signature value, 3 owner's signature of other data
 }
 
 // Fingerprint identifies the normalised spec for distinct counting.
 func (s Spec) Fingerprint() string {
-	return fmt.Sprintf("%v|c%d o%d r%d s%d v%d t%d x%v tr%v|%v %v %d %d %d|%d %v %d|%d %d %q %v|%d %v %v %v|%v %d",
+	return fmt.Sprintf("%v|c%d o%d r%d s%d v%d t%d x%v tr%v|%v %v %d %d %d|%d %v %d|%d %d %q %v|%d %v %v %v|%v %d %d",
 		s.Op, s.Cnr, s.Obj, s.Requester, s.Scheme, s.Version, s.TTL, s.XHeaders, [3]bool{s.Trusted, s.Late, s.TLSPeer},
 		s.Raw, s.PayloadOnly, s.RangeKind, s.RangeOff, s.RangeLen,
 		s.SearchCount, s.SearchFilters, s.SearchAttrs,
 		len(s.PutPayload), s.PutChunks, s.PutAttr, s.PutTombstone,
-		s.Session, s.SessionBindObj, s.Bearer, s.BearerForUser, s.Defect, s.DefectArg)
+		s.Session, s.SessionBindObj, s.Bearer, s.BearerForUser, s.Defect, s.DefectArg, s.ForgeKind)
 }
 
 // String is a compact human-readable rendering for failure messages and samples.
@@ -187,8 +190,8 @@ func (s Spec) String() string {
 	if s.TLSPeer {
 		extra += " tls-peer(with verification header)"
 	}
-	return fmt.Sprintf("%v cnr=%s obj=%s by=%s scheme=%s api=%d.%d ttl=%d trusted=%v xhdr=%v session=%d(bindObj=%v) bearer=%v(forUser=%v)%s DEFECT=%v(arg %d)",
-		s.Op, cn, on, rn, sn, v[0], v[1], s.TTL, s.Trusted, s.XHeaders, s.Session, s.SessionBindObj, s.Bearer, s.BearerForUser, extra, s.Defect, s.DefectArg)
+	return fmt.Sprintf("%v cnr=%s obj=%s by=%s scheme=%s api=%d.%d ttl=%d trusted=%v xhdr=%v session=%d(bindObj=%v) bearer=%v(forUser=%v)%s DEFECT=%v(arg %d forge %d)",
+		s.Op, cn, on, rn, sn, v[0], v[1], s.TTL, s.Trusted, s.XHeaders, s.Session, s.SessionBindObj, s.Bearer, s.BearerForUser, extra, s.Defect, s.DefectArg, s.ForgeKind)
 }
 
 // Applicable reports whether the defect class exists for the operation.
@@ -427,6 +430,11 @@ func Normalize(s Spec) Spec {
 	}
 	if !s.Bearer {
 		s.BearerForUser = false
+	}
+	if d != DefSessionForgedSig && d != DefBearerForgedSig {
+		s.ForgeKind = 0
+	} else {
+		s.ForgeKind = ((s.ForgeKind % 4) + 4) % 4
 	}
 	if s.Trusted {
 		s.Scheme = SchemeSHA512
